@@ -43,8 +43,8 @@ def record(sp, rs, k, thorough):
         # the setting of the property's recovery clause: fully sampled k-space of smooth (birdcage) maps times an image
         from sigpy.mri import sim as msim
 
-        n = 16 if ndim == 2 else 12
-        shape = (n,) * ndim
+        # even, odd and rectangular fields of view (the centre convention of every transform involved differs for odd lengths)
+        shape = [(16, 16), (17, 17), (16, 21), (15, 18)][(k // 2) % 4] if ndim == 2 else [(12, 12, 12), (11, 12, 13)][(k // 10) % 2]
         nc = int(rs.choice([4, 6, 8]))
         nc_default = False
         # calibration region inside the acquired k-space (a zero-padded calibration region with a low threshold
@@ -52,7 +52,7 @@ def record(sp, rs, k, thorough):
         calib_width = int(rs.choice([12, 16])) if ndim == 2 else 12
         kernel_width = int(rs.choice([4, 6])) if ndim == 2 else 4
         thresh = float(rs.choice([0.01, 0.02, 0.05]))
-        if k % 6 == 0 and ndim == 2:
+        if k % 6 == 0 and ndim == 2 and shape == (16, 16):
             nc_default = True
         crop = float(rs.choice([0.0, 0.8, 0.95]))
         max_iter = int(rs.choice([30, 100]))
@@ -85,7 +85,7 @@ def record(sp, rs, k, thorough):
         nrm = np.sqrt((np.abs(app.mps) ** 2).sum(axis=-2))
         edec = 0.0 if prev is None else float(np.max(prev - eig))
         ev.append({"e": "it", "iter": int(alg.iter), "ndev": fx(np.nanmax(np.abs(nrm - 1)) if np.isfinite(nrm).all() else 2.0), "edec": fx(max(edec, 0.0)), "emax": fx(eig.max()),
-                   "neither": 0, "zero_above_crop": 0, "nonzero_below_crop": 0, "im0": 0, "negre0": 0, "emin_neg": 0, "interior_err": 0})
+                   "neither": 0, "zero_above_crop": 0, "nonzero_below_crop": 0, "im0": 0, "negre0": 0, "emin_neg": 0, "interior_err": 0, "misaligned": 0})
         prev = eig
     mps, max_eig = app._output()
     mps = np.asarray(mps)
@@ -95,16 +95,26 @@ def record(sp, rs, k, thorough):
     is_unit = np.abs(vn - 1) <= 1e-6
     neither = int(np.sum(~(is_zero | is_unit))) + int(np.sum(~np.isfinite(vn)))
     interior_err = 0.0
+    misaligned = 0
     if synthetic:
         sl = tuple(slice(4, s - 4) for s in shape)     # interior of the field of view, as in the repository's own test
         interior_err = float(np.max(np.abs(np.abs(mps[(slice(None),) + sl]) - np.abs(maps[(slice(None),) + sl]))))
+        # alignment: the recovered magnitudes must fit the true maps better than the true maps displaced by one voxel along any
+        # axis (a centre-convention slip on odd lengths shifts the maps by exactly one voxel)
+        rms = lambda ref: float(np.sqrt(np.mean((np.abs(mps[(slice(None),) + sl]) - np.abs(ref[(slice(None),) + sl])) ** 2)))
+        e0 = rms(maps)
+        es = min(rms(np.roll(maps, sgn, axis=ax + 1)) for ax in range(ndim) for sgn in (-1, 1))
+        # (2-D only: in the 3-D configurations the interior is 4-5 voxels wide and the maps vary too slowly for the comparison
+        #  to be decisive - measured: it fails for half of the unchanged 12^3 runs; there the magnitude bound below is tight)
+        misaligned = int(e0 > es) if ndim == 2 else 0
     ev.append({"e": "out", "iter": int(alg.iter), "ndev": 0, "edec": 0, "emax": fx(max_eig.max()),
                "neither": neither, "zero_above_crop": int(np.sum(is_zero & (max_eig > crop))), "nonzero_below_crop": int(np.sum(~is_zero & ~(max_eig > crop))),
                "im0": fx(np.nanmax(np.abs(np.imag(mps[0])))), "negre0": fx(max(-np.nanmin(np.real(mps[0])), 0.0)), "emin_neg": int(np.sum(max_eig < -1e-9)),
-               "interior_err": fx(interior_err)})
+               "interior_err": fx(interior_err), "misaligned": misaligned})
     pure = bool(np.array_equal(ksp, ksp0))
     # recovery bound: 1.5 % for the repository test's configuration (measured 0.52 %), 6 % for the other synthetic families (measured worst 2.7 %)
-    recover_tol = 15000000 if (synthetic and calib_width == 24) else 60000000
+    # 3-D synthetic runs: 3 % (measured worst 0.9 % on even and odd shapes; a one-voxel displacement leaves 5.6 %)
+    recover_tol = 15000000 if (synthetic and calib_width == 24) else (30000000 if ndim == 3 else 60000000)
     return {"id": "esp%d" % k, "max_iter": max_iter, "synthetic": int(synthetic), "recover_tol": recover_tol, "ev": ev,
             "meta": {"shape": list(shape), "coils": nc, "calib_width": calib_width, "kernel_width": kernel_width, "thresh": thresh, "crop": crop, "synthetic": synthetic, "ksp_unchanged": pure}}
 
